@@ -215,6 +215,69 @@ def run(rep):
     check_slash_plumbing(rep, 'R07.c')
     rep.floor('R07.c', 12)
 
+    # ---- R07.d -----------------------------------------------------------
+    rep.rule('R07.d', 'shape of normalize_path: drop empty segments, one leading slash, one trailing slash iff branch')
+    check_normalize_path(rep, 'R07.d')
+
+
+def check_normalize_path(rep, rule):
+    """The canonical form is built as: non-empty segments of path.split('/'), prefixed by one '',
+    suffixed by one '' exactly when is_branch, joined with '/'; '/' when there are no segments.
+    (Decides the *construction*, from which idempotence follows; the value-level fixed-point claim itself
+    is declined.)"""
+    from .. import effects
+    repo = rep.repo
+    route = repo.mod(ROUTE)
+    fi = route.func('normalize_path')
+    ps = fi.params()   # path, is_branch
+    cfg = cfg_of(fi)
+    rets = returns_of(fi)
+    joins = [r for r in rets if isinstance(r.value, ast.Call) and call_tail(r.value) == 'join' and
+             isinstance(r.value.func.value, ast.Constant) and r.value.func.value.value == '/']
+    roots = [r for r in rets if isinstance(r.value, ast.Constant) and r.value.value == '/']
+    ok = len(joins) == 1 and len(roots) == 1 and len(rets) == 2 and isinstance(joins[0].value.args[0], ast.Name)
+    rep.check(rule, fkey(fi, 'returns'), ok, "returns '/' or '/'.join(<segment list>)" if ok else
+              "normalize_path does not return '/' / '/'.join(segments)", route, fi.node)
+    if not ok:
+        return
+    L = joins[0].value.args[0].id
+    src = [s for s in stmts_of(fi.node) if isinstance(s, ast.Assign) and norm(s.targets[0]) == L]
+    filt = [s for s in src if isinstance(s.value, ast.ListComp) and len(s.value.generators) == 1 and
+            norm(s.value.generators[0].iter) == "%s.split('/')" % ps[0] and
+            norm(s.value.elt) == norm(s.value.generators[0].target) and
+            [norm(i) for i in s.value.generators[0].ifs] in ([norm(s.value.elt)], ["%s != ''" % norm(s.value.elt)], ['len(%s)' % norm(s.value.elt)],
+                                                             ['len(%s) > 0' % norm(s.value.elt)])]
+    ok = len(filt) == 1 and src[0] is filt[0]
+    rep.check(rule, fkey(fi, 'segments'), ok, 'segments = the non-empty parts of path.split(\'/\') (repeated slashes vanish)' if ok else
+              'the segment list is not "non-empty parts of path.split(\'/\')"', route, src[0] if src else fi.node)
+    cs = conds(fi, roots[0])
+    ok = has_cond(cs, lambda t: norm(t) == L, False) and not any(ps[1] in norm(t) for t, p in cs)
+    rep.check(rule, fkey(fi, 'root'), ok, "no segments => '/'" if ok else "the '/' result is not returned exactly when there are no segments", route, roots[0])
+    lead = [s for s in src[1:] if norm(s.value) in ("[''] + %s" % L,)] + \
+        [stmt_of(route, c) for c in walk_body(fi.node) if isinstance(c, ast.Call) and norm(c.func) == '%s.insert' % L and
+         [norm(a) for a in c.args] == ['0', "''"]]
+    ok = len(lead) == 1 and cfg.must_pass(cfg.nodes_of(lead[0]), cfg.entry, cfg.nodes_of(joins[0])) and \
+        not (set(cfg.nodes_of(lead[0])) & cfg.reach([m for n in cfg.nodes_of(lead[0]) for m in cfg.succ[n]]))
+    rep.check(rule, fkey(fi, 'leading slash'), ok, "exactly one leading '' is prepended (one leading slash)" if ok else
+              'the canonical form does not get exactly one leading slash', route, lead[0] if lead else fi.node)
+    trail = [stmt_of(route, c) for c in walk_body(fi.node) if isinstance(c, ast.Call) and norm(c.func) == '%s.append' % L and
+             [norm(a) for a in c.args] == ["''"]] + [s for s in src[1:] if norm(s.value) == "%s + ['']" % L]
+    ok = len(trail) == 1
+    if ok:
+        tcs = conds(fi, trail[0])
+        ok = has_cond(tcs, lambda t: norm(t) == ps[1], True) and len([1 for t, p in tcs if ps[1] in norm(t)]) == 1 and \
+            bool(set(cfg.nodes_of(joins[0])) & cfg.reach(cfg.nodes_of(trail[0]), normal_only=True))
+        # and the non-branch path reaches the join without a trailing ''
+        fb = cfg.branch_nodes([t for t, p in tcs if norm(t) == ps[1]][0], False) if ok else []
+        ok = ok and bool(fb) and bool(set(cfg.nodes_of(joins[0])) & cfg.reach(fb, avoid=cfg.nodes_of(trail[0]), normal_only=True))
+    rep.check(rule, fkey(fi, 'trailing slash'), ok, "a trailing '' is appended exactly when is_branch" if ok else
+              'the trailing slash is not added exactly when is_branch', route, trail[0] if trail else fi.node)
+    others = [e for e in effects.effects_in(fi.node) if not (e.root == L)]
+    muts = [e for e in effects.effects_in(fi.node) if e.root == L]
+    ok = not others and len(muts) <= 2 and len(src) <= 2
+    rep.check(rule, fkey(fi, 'nothing else'), ok, 'no other operation touches the segment list; the function is pure' if ok else
+              'normalize_path performs further operations on the segments / has side effects', route, fi.node)
+
 
 def check_slash_plumbing(rep, rule):
     repo = rep.repo
